@@ -307,6 +307,9 @@ def _parse_item(src, toks, lo, kw, hi):
             j = match_close(toks, j) + 1
             continue
         if x.kind == 'punct' and x.text == '{':
+            if t.text in ('const', 'static', 'type'):
+                j = match_close(toks, j) + 1
+                continue
             body_open = j
             last = match_close(toks, j)
             break
@@ -347,11 +350,14 @@ def _parse_item(src, toks, lo, kw, hi):
 
 
 def locate(src, toks, path):
-    """path: 'impl BudgetEnforcer/fn observe' (segments separated by '/').
-    Returns Item. Raises KeyError if missing, ValueError if ambiguous."""
-    lo, hi = 0, len(toks)
-    it = None
-    for seg in [s.strip() for s in path.split('/')]:
+    """path: 'impl BudgetEnforcer/fn observe' (segments separated by '/'; `name#k` picks the k-th
+    of several equally named items).  When an inner segment matches several items (several
+    `impl X` blocks), the one that contains the rest of the path is taken.
+    Raises KeyError if missing, ValueError if ambiguous."""
+    segs = [s.strip() for s in path.split('/')]
+
+    def search(lo, hi, k, parent):
+        seg = segs[k]
         kind, _, name = seg.partition(' ')
         name = _norm_ws(name)
         nth = None
@@ -359,23 +365,25 @@ def locate(src, toks, path):
         if m:
             name, nth = m.group(1).strip(), int(m.group(2))
         cands = [x for x in items_in(src, toks, lo, hi) if x.kind == kind and x.name == name]
-        if not cands and it is not None and it.kind == 'fn':
-            # items nested deeper inside a function body
+        if not cands and parent is not None and parent.kind == 'fn':
             cands = [x for x in items_in(src, toks, lo, hi, any_depth=True)
                      if x.kind == kind and x.name == name]
-        if not cands:
-            raise KeyError('item not found: %s (segment %r)' % (path, seg))
         if nth is not None:
-            if nth > len(cands):
-                raise KeyError('item not found: %s (segment %r, only %d)' % (path, seg, len(cands)))
-            it = cands[nth - 1]
-        elif len(cands) > 1:
-            raise ValueError('ambiguous item: %s (segment %r matches %d)' % (path, seg, len(cands)))
-        else:
-            it = cands[0]
-        if it.body_open is not None:
-            lo, hi = it.body_open + 1, it.last
-    return it
+            cands = cands[nth - 1:nth]
+        if k == len(segs) - 1:
+            return cands
+        out = []
+        for c in cands:
+            if c.body_open is not None:
+                out.extend(search(c.body_open + 1, c.last, k + 1, c))
+        return out
+
+    found = search(0, len(toks), 0, None)
+    if not found:
+        raise KeyError('item not found: %s' % path)
+    if len(found) > 1:
+        raise ValueError('ambiguous item: %s (%d matches)' % (path, len(found)))
+    return found[0]
 
 
 def item_text(src, toks, it):
